@@ -446,7 +446,22 @@ pub fn exec(run: u64, prog: &Value, out: &mut Out) {
     out.emit(merge(json!({"ev":"new","run":run,"kind":kind,"ctor":ctor_logged(kind, &c),"panic":false}), obs_img(&t.image(), full_limit)));
     let mut hs = Hs(Vec::new());
     let summary = prog.get("summary").map(bool_of).unwrap_or(false);
+    // "shadow": a second table of the same kind kept alive and extended in lock-step (its operations come from the
+    // main program's own list, shifted by one): two builders of one type must not influence each other
+    let shadow_on = prog.get("shadow").map(bool_of).unwrap_or(false);
+    let mut shadow: Option<(T, Hs)> = if shadow_on { guarded(|| new_table(kind, &c)).ok().map(|t| (t, Hs(Vec::new()))) } else { None };
     for (i, op) in ops.iter().enumerate() {
+        if let Some((st, shs)) = shadow.as_mut() {
+            // the shadow replays the main program one step behind (so its handles are valid for its own references)
+            if i > 0 {
+                let prev = &ops[i - 1];
+                let r = guarded(|| apply(st, &c, &ops[..i - 1], prev, shs));
+                match r {
+                    Ok(h) => shs.0.push(h),
+                    Err(()) => shadow = None,
+                }
+            }
+        }
         let r = guarded(|| apply(&mut t, &c, &ops[..i], op, &hs));
         let (h, panicked) = match r {
             Ok(h) => (h, false),
